@@ -193,3 +193,14 @@ package writer
 //@   ensures [the-downstream-position-is-handed-back] result == nil ==> param.TargetMsgPosition == sdkResp.Position
 // every attempt (retry.Do inside milvusOp) passes the same parameters
 //@   rangeloop 1 invariant sdkCalls >= old(sdkCalls) && (sdkCalls > old(sdkCalls) ==> sdkChannel == param.ChannelName && sdkBeginTs == param.BeginTs && sdkEndTs == param.EndTs && sdkBytes == param.MsgsBytes) && param.ChannelName == old(param.ChannelName) && param.BeginTs == old(param.BeginTs) && param.EndTs == old(param.EndTs) && param.MsgsBytes == old(param.MsgsBytes)
+
+// ---- C07 / C06: the per-channel handler loop completes every message with the outcome of its downstream call ------
+// Since the goroutine started, the failure callback ran once per failed downstream call - with that call's error - and
+// the success callback once per successful one: a downstream error is never reported as a success.
+//@ func (*replicateMessageHandler).startHandleMessageLoop$1
+//@   props C07 C06
+//@   requires deref(r) != nil
+//@   private replicateMessageHandler.handler replicateMessageHandler.messageChan opCalls replicateFailures lastReplicateErr failCalls successCalls lastFailErr
+//@   loop 1 invariant [one-failure-callback-per-failed-downstream-call] failCalls - before(failCalls) == replicateFailures - before(replicateFailures)
+//@   loop 1 invariant [one-success-callback-per-successful-downstream-call] successCalls - before(successCalls) == (opCalls - before(opCalls)) - (replicateFailures - before(replicateFailures))
+//@   loop 1 invariant [a-failure-is-reported-with-the-error-of-the-failed-call] prev(replicateFailures) < replicateFailures ==> lastFailErr == lastReplicateErr && lastFailErr != nil
